@@ -10,29 +10,29 @@ CAB_NOTE = ("Trusted: z3 unsat answers; contract stubs for clingo / biodivine_ae
 T_CAB = "concolic symbolic execution of the real Python with z3 (path classes + frontier exhaustion); counterexamples replayed on clean code"
 CHECKS = {
     "C01": dict(engine="E-CAB", category="model_checking", design_ref="§6 C01", technique=T_CAB + "; per-model SMT validation on the published models (z3 over all states: fixed-point attractors complete and sound, seed placement)",
-                text="A complete strategy with default settings (build, block, bfs, dfs, source-SCC, attractor-seed), then seeds of every expanded node: z3 decides over the symbolic truth table (REACH by repeated squaring, ATTR = terminal SCC) that every seed lies in an attractor inside its node and outside the node's successors and that every attractor has exactly one seed."),
+                text="A complete strategy with default settings (build, block, bfs, dfs, source-SCC, attractor-seed), then seeds of every expanded node: z3 decides over the symbolic truth table (REACH by repeated squaring, ATTR = terminal SCC) that every seed lies in an attractor inside its node and outside the node's successors and that every attractor has exactly one seed. Published models (5-321 variables; checks/c18_models.py): after build / attractor-seed / block / source-SCC / BFS expansion z3 decides over all states that the reported fixed-point attractors are exactly the fixed points of the model; every minimal trap space carries a seed, seeds lie in their node and outside its successors. Open finding F-C01-scc-nested (expand_scc reports a motif-avoidant attractor twice) is listed in known_findings.txt."),
     "C05": dict(engine="E-CAB", category="model_checking", design_ref="§6 C05", technique=T_CAB + "; per-model SMT validation on the published models (z3 over all states: fixed-point attractors complete and sound, seed placement)",
-                text="A limited strategy with symbolic limits, completion by skip_remaining / skip_to_minimal on every stub / minimal-space expansion with skip_ignored, then seeds of every node: every seed in an attractor inside its node, every attractor at least once, exactly once if the network has no motif-avoidant attractor (SymNet predicate)."),
+                text="A limited strategy with symbolic limits, completion by skip_remaining / skip_to_minimal on every stub / minimal-space expansion with skip_ignored, then seeds of every node: every seed in an attractor inside its node, every attractor at least once, exactly once if the network has no motif-avoidant attractor (SymNet predicate). Published models (checks/c18_models.py): bfs(3)+skip_remaining, dfs(4)+skip_to_minimal everywhere, expand_minimal_spaces(skip_ignored=True), seeds on every node: every fixed point of the model (z3 over all states) is some node's seed, every minimal trap space contains a seed, no seed lies inside a successor of its node."),
     "C09": dict(engine="E-LIFT", category="translation_validation", design_ref="§3.1, §6 C09", technique="SMT (z3) equivalence of the ASP program emitted by the real code, lifted over a generic Petri net, with the trap-space definition for all networks and covers" + "; per-model SMT validation on the published models (z3 over all states / all subspaces of the validated Petri net)",
                 note="Trusted: z3; clingo's enumeration contract (subset-minimal/maximal models under domRec), validated on every representative of every E-CAB run; locality of rule emission (checked on random sub-nets each run). Bounded: n <= 4 variables.",
-                text="The real _create_clingo_constraints / fixed-point constraints / reduced-STG net surgery / model converters run on the generic net G_n; per-shape, per-avoid, per-source, per-ensure and per-retained rule sets are lifted with selector Booleans and z3 proves that the classical models of the emitted program are exactly the spaces of the definition, for all networks, covers, avoid lists, source lists and retained sets with n <= 3 (quick: + n=4 slice; thorough: n=4 full)."),
+                text="The real _create_clingo_constraints / fixed-point constraints / reduced-STG net surgery / model converters run on the generic net G_n; per-shape, per-avoid, per-source, per-ensure and per-retained rule sets are lifted with selector Booleans and z3 proves that the classical models of the emitted program are exactly the spaces of the definition, for all networks, covers, avoid lists, source lists and retained sets with n <= 3 (quick: + n=4 slice; thorough: n=4 full). API harness (checks/c09_api.py): the real trappist() / compute_fixed_point_reduced_STG() on symbolic networks with symbolic problem, ensure, up to two avoided spaces, sources, limit and time direction. Published models (checks/c09_models.py): per call of the real trappist(min|max|fix, ensure, avoid, reverse_time) z3 decides over all subspaces of the validated Petri net that the answers are exactly the requested trap spaces."),
     "C10": dict(engine="E-TV", category="translation_validation", design_ref="§3.4, §6 C10", technique="per-artefact SMT validation (z3 over all states) of the real code's Petri nets / restricted nets / percolated networks; restriction lifted over the generic net",
                 note="Trusted: z3; the independent 60-line expression parser; AEON's bnet parser reading the same text. (a),(c) are per model (215 repository models, all functions of <= 3 inputs); (b) is for all nets over G_n, n <= 3 (4 in thorough).",
                 text="(a) every update function of the repository models and every function of <= 3 inputs: z3 decides over all states that the emitted implicants equal f&!x / !f&x; (b) restrict_petrinet_to_subspace lifted over the generic net: all nets, subspaces and states; (c) percolate_network per model and node space: remaining variables and functions agree with the original on every state of the space."),
     "C02": dict(engine="E-CAB", category="model_checking", design_ref="§3.2, §6 C02", technique=T_CAB + "; per-model SMT validation on the published models (z3 over all states / all subspaces of the validated Petri net)",
-                text="Concolic execution of the real expand_bfs/expand_dfs over a symbolic truth table: z3 decides, for every path class, that the produced diagram equals the hierarchy of percolated trap spaces for all networks of the class; exhaustive for all 2-variable networks, time-boxed (quick) / exhaustive (thorough) for all 3-variable networks."),
+                text="Concolic execution of the real expand_bfs/expand_dfs over a symbolic truth table: z3 decides, for every path class, that the produced diagram equals the hierarchy of percolated trap spaces for all networks of the class; exhaustive for all 2-variable networks, time-boxed (quick) / exhaustive (thorough) for all 3-variable networks. Published models (checks/c02_models.py): for the root and the deepest expanded nodes of size-limited BFS/DFS runs z3 decides closure under percolation (least fixed point over all states) and that the listed stable motifs are trap spaces, maximal, percolate to their child, none missing (all subspaces of the validated Petri net). Also with a symbolic max_motifs_per_node (limit error or exact diagram)."),
     "C03": dict(engine="E-CAB", category="model_checking", design_ref="§3.2, §6 C03", technique=T_CAB + "; per-model SMT validation on the published models (z3 over all subspaces of the validated Petri net: reported minimal trap spaces closed, minimal, none missing)",
                 text="Published models (5-321 variables): for every complete strategy run z3 decides exactly-the-minimal-trap-spaces over all subspaces (checks/models_tv.py). Small symbolic networks: Every completing strategy (bfs, dfs, minimal-space +-skip, attractor-seed, block with all flag combinations, source-SCC) and limited strategies completed by skipping, optionally after a plain prefix call with symbolic limits: z3 decides per path class that the expanded leaves are exactly the inclusion-minimal trap spaces. U2 exhaustive for single strategies; D3/B21 (quick) and U3/B22/CH4/S2C2 (thorough) time-boxed."),
     "C04": dict(engine="E-CAB", category="model_checking", design_ref="§3.2, §6 C04", technique=T_CAB + "; per-model SMT validation on the published models (z3 over all states / all subspaces of the validated Petri net)",
-                text="Histories of plain expansion calls with symbolic start nodes, limits and targets; after every call the partial-diagram invariant is decided for the whole path class, and the continued full expansion is decided against the C02 hierarchy and compared with a fresh diagram."),
+                text="Histories of plain expansion calls with symbolic start nodes, limits and targets; after every call the partial-diagram invariant is decided for the whole path class, and the continued full expansion is decided against the C02 hierarchy and compared with a fresh diagram. Published models (checks/c02_models.py): four canned histories of plain calls with limits and start nodes; afterwards every expanded node is decided as in C02, no space occurs twice, unexpanded nodes have no successors."),
     "C06": dict(engine="E-CAB", category="model_checking", design_ref="§6 C06", technique=T_CAB + "; per-model SMT validation on the published models (z3: motif chain over the validated Petri net, override LDOI as least fixed point over all states, minimal trap spaces inside the final space enumerated by SAT)",
-                text="Real succession_control over a symbolic network with symbolic target, strategy, driver bound, forbidden set and skip_feedforward flag, on fresh and pre-expanded/skipped/block-expanded diagrams: for every intervention flagged successful z3 decides nesting of the trap spaces, LDOI containment of the motif, and - over the overridden network's REACH/ATTR - that every attractor reachable from the previous trap space carries the motif; the final space's minimal trap spaces lie in the target."),
+                text="Real succession_control over a symbolic network with symbolic target, strategy, driver bound, forbidden set and skip_feedforward flag, on fresh and pre-expanded/skipped/block-expanded diagrams: for every intervention flagged successful z3 decides nesting of the trap spaces, LDOI containment of the motif, and - over the overridden network's REACH/ATTR - that every attractor reachable from the previous trap space carries the motif; the final space's minimal trap spaces lie in the target. Published models (checks/c06_models.py): successful interventions towards minimal trap spaces: motif chain closed and nested (validated Petri net), every override's domain of influence contains the motif (z3 least fixed point over all states), all minimal trap spaces inside the final space (enumerated by SAT) lie in the target; the attractor-reachability clause is decided only on the symbolic families."),
     "C07": dict(engine="E-CAB", category="model_checking", design_ref="§6 C07", technique=T_CAB,
                 text="On a fresh diagram: the diagram after control is a faithful partial diagram expanded exactly where the target requires; every root path x motif choice is listed iff it ends in an outermost node all of whose minimal trap spaces lie in the target; per step the reported overrides are exactly the inclusion-minimal allowed variable sets within the bound that force the motif (decided with the symbolic percolation definition); success flag and successful_only filter are exact."),
     "C08": dict(engine="E-CAB", category="model_checking", design_ref="§3.2, §6 C08", technique=T_CAB,
                 text="Real compute_attractor_candidates (incl. greedy ASP optimisation, simulation minification, retained-set regeneration) on a symbolic node of a prefix history with the two option flags and the four numeric configuration fields as solver variables; z3 decides coverage of every attractor via REACH/ATTR over the symbolic truth table."),
     "C11": dict(engine="E-CAB", category="model_checking", design_ref="§6 C11", technique=T_CAB + " (fine mode: update-function handles carry a symbolic denotation)" + "; per-model SMT validation on the published models (z3 over all states / all subspaces of the validated Petri net)",
-                text="Real percolate_space on a symbolic subspace (AEON's answer is an observation against the least-fixed-point definition; idempotence and trap-space preservation decided per class) and the real hand-written percolate_space_strict / function_eval / find_single_node_LDOIs / find_single_drivers executed on BDD handles whose is_true/is_false/r_restrict are observations over the symbolic truth table."),
+                text="Real percolate_space on a symbolic subspace (AEON's answer is an observation against the least-fixed-point definition; idempotence and trap-space preservation decided per class) and the real hand-written percolate_space_strict / function_eval / find_single_node_LDOIs / find_single_drivers executed on BDD handles whose is_true/is_false/r_restrict are observations over the symbolic truth table. Published models (checks/c11_models.py): percolate_space / percolate_space_strict / the single-node LDOI table equal the least fixed point of value propagation, every constant-test a z3 verdict over all states of the current space."),
     "C12": dict(engine="E-CAB", category="model_checking", design_ref="§6 C12", technique=T_CAB + " (coarse: set contents are per-representative observations against REACH)",
                 text="Real node_attractor_sets / node_attractor_seeds(symbolic_fallback=True) on a symbolic node of a prefix history (sets before/after seeds and candidates, after reclaim, skip nodes): every returned VertexSet is enumerated and observed against the forward closure of its seed over the symbolic truth table; z3 decides per class that closure = attractor, in seed order, over all variables; the fallback's attractor family equals the default method's on a twin diagram. The inside of symbolic_attractor_test is validated per representative, not class-generalised."),
     "C13": dict(engine="E-CAB", category="model_checking", design_ref="§6 C13", technique=T_CAB + "; work budget watchdog per class",
